@@ -76,7 +76,7 @@ func scalarVal(r *rand.Rand, f string, who int) string {
 func keyedVal(r *rand.Rand, fam string, who int) string {
 	switch fam {
 	case "mnt":
-		return fmt.Sprintf("/s/v%d-%d|%s|%s", who, r.Intn(5), pick(r, []string{"bind", "tmpfs"}), pick(r, []string{"ro", "rw,nosuid", ""}))
+		return fmt.Sprintf("/s/v%d-%d|%s|%s", who, r.Intn(5), pick(r, []string{"bind", "tmpfs"}), pick(r, []string{"ro", "rw,nosuid", "", "rbind,rprivate,ro,nosuid", "rprivate"}))
 	case "dev":
 		return fmt.Sprintf("%s|%d|%d%s", pick(r, []string{"c", "b"}), r.Intn(10), 100*who+r.Intn(50), pick(r, []string{"", "|420", "|384|1|2"}))
 	case "rlim":
